@@ -535,6 +535,8 @@ func (w *World) exec(op *Op) {
 		w.opCanon(op)
 	case "bulk":
 		w.opBulk(op)
+	case "rootcheck":
+		w.opRootCheck(op)
 	default:
 		// unknown op kinds are ignored (forward compatibility of replay files)
 	}
